@@ -59,7 +59,7 @@ def _body(pkt):
 
 
 def _uid_octets(u):
-    return ('uid', u.userid.encode('utf-8')) if u.is_uid else ('uattr', bytes(u.image))
+    return ('uid', keyworld.uid_octets(u)) if u.is_uid else ('uattr', bytes(u.image))
 
 
 def check_object(ctx, what, obj, mk, sigp='C15', twin=False):
